@@ -14,8 +14,20 @@ def main():
         data = json.load(f)
     print('property :', data['property'])
     print('message  :', data['message'])
+    rep = data['replay']
+    if 'traceback' in rep:
+        # the check was aborted by an exception (code under test that could not even be driven): the record is the
+        # traceback; running the check again is the replay
+        print(rep['traceback'])
+        print('replay   : /venv/bin/python verify.py %s --tier quick' % data['property'])
+        return 0
     mod = importlib.import_module('checks.%s' % data['property'].lower())
-    return mod.replay(data['replay'])
+    try:
+        return mod.replay(rep)
+    except Exception as e:      # a replay helper must never hide the record itself
+        print('replay helper failed (%s: %s); the stored record is:' % (type(e).__name__, e))
+        print(json.dumps(rep, indent=1)[:4000])
+        return 0
 
 
 if __name__ == '__main__':
